@@ -404,7 +404,9 @@ fn run_training(ctx: &mut Ctx, r: &mut Rng) {
     }
     let iters = if wide { r.range(3, 5) } else { r.range(3, ctx.tier.n(12, 30) as usize) };
     let desc = format!("{} iterations={}", spec.describe(), iters);
-    let res = guard(|| train_ledger(&spec, iters, r.next()));
+    // half of the runs keep one Model for the whole loop, the other half build one per iteration (see train_ledger)
+    let persistent = r.chance(1, 2);
+    let res = guard(|| train_ledger(&spec, iters, r.next(), persistent));
     match res {
         Err(m) => {
             ctx.case(&desc, false);
@@ -423,7 +425,7 @@ fn run_training(ctx: &mut Ctx, r: &mut Rng) {
                 );
             }
             if ledger::ENABLED {
-                // boundaries from the 2nd iteration on must be identical
+                // (model-per-iteration runs only) boundaries from the 2nd iteration on must be identical
                 for w in t.boundaries.windows(2).skip(1) {
                     ctx.count("training_iteration_boundaries_compared", 1);
                     if w[0] != w[1] {
